@@ -1,5 +1,7 @@
 """C16 - the fault-injection callback sees and controls every evaluated signal."""
+import copy
 import operator
+import pickle
 
 import numpy as np
 from hypothesis import strategies as st
@@ -13,7 +15,7 @@ RULE = ('Hypothesis-generated netlists x stimuli x m in {2,4,8} x {c_reuse} x {s
         '(a) a recording callback is invoked exactly once for every line that has a simulated driver (with strip_forks: every line not driven by a '
         'stripped fork), in an order consistent with the netlist (a line after the lines feeding its driver), with a writable array holding the '
         'value an own line-level evaluator predicts; (b) a callback that does nothing leaves all results equal to inject_cb=None; (c) a callback '
-        'that overwrites line L gives, at all outputs and state elements, the results of the own evaluator with L cut and driven by the replacement '
+        'that overwrites line L gives (also on a simulator restored from a pickle or a deepcopy), at all outputs and state elements, the results of the own evaluator with L cut and driven by the replacement '
         'values (also through cycle()). non-trivial: L has an output in its fan-out and one outside it and the replacement differs from the natural '
         'value in some lane; distinct by SHA-1 of the case.')
 ASSUMPTIONS = ['callback identity accepted as a Line object or a plain line index (operator.index)',
@@ -31,7 +33,8 @@ def cases(draw, tier):
     stim = draw(S.codes(n, sims, alpha))
     repl = draw(st.lists(st.sampled_from(alpha), min_size=sims, max_size=sims))
     return dict(nl=nl, m=m, sims=sims, stim=stim, repl=repl, target=draw(st.integers(0, 10000)),
-                c_reuse=draw(st.booleans()), strip_forks=draw(st.booleans()), cycles=draw(st.sampled_from([0, 0, 1, 2])))
+                c_reuse=draw(st.booleans()), strip_forks=draw(st.booleans()), cycles=draw(st.sampled_from([0, 0, 1, 2])),
+                copied=draw(st.sampled_from([0, 0, 0, 1, 2])))
 
 
 class LineEval:
@@ -95,6 +98,10 @@ def prop(case):
         for k, r in enumerate(in_rows):
             mv[r] = case['stim'][k]
         s.s[0] = pack_bp(mv)
+        if case.get('copied') == 1:         # a simulator that went through pickle (e.g. to a worker process) or deepcopy is a simulator like any other
+            s = pickle.loads(pickle.dumps(s))
+        elif case.get('copied') == 2:
+            s = copy.deepcopy(s)
         return s
 
     def results(s):
@@ -235,9 +242,10 @@ def prop(case):
     if case['strip_forks']: labels.append('strip_forks')
     if case['c_reuse']: labels.append('c_reuse')
     if cycles: labels.append('through_cycle')
+    if case.get('copied'): labels.append('simulator_pickled_or_copied')
     if differs: labels.append('replacement_differs')
     if any(in_fo) and not all(in_fo): labels.append('target_partially_observable')
     return Obs(differs and any(in_fo) and not all(in_fo), labels, checks=len(calls) + len(outs))
 
 
-PARTS = [Part('inject', prop, strategy=cases, quick=(8, 250), thorough=(16, 10000))]
+PARTS = [Part('inject', prop, strategy=cases, quick=(8, 500), thorough=(16, 10000))]
